@@ -1485,7 +1485,11 @@ fn run_m<const M: usize>(pidx: usize, prog: &Program) -> Vec<Event> {
     // the arena is always dropped at the end (its own event) so that the ledger closes
     step(&mut st, &Op::Drop);
     rec::set_fault(Fault::None);
-    st.out
+    // deep-copy outside the recorder's region (which the next program recycles)
+    let out_region = std::mem::take(&mut st.out);
+    let out = out_region.clone();
+    drop(out_region);
+    out
 }
 
 /// For unsupported MIN_ALIGN values only the constructors are exercised.
